@@ -127,6 +127,9 @@ class Check:
                "-XX:TieredStopAtLevel=1" if small else "-XX:+TieredCompilation"]
         if heap:
             cmd.append("-Xmx%s" % heap)
+        jt = os.path.join(dst, "jtmp")   # TLC leaves a tlc-* directory per run in java.io.tmpdir: keep it inside the scratch copy
+        os.makedirs(jt, exist_ok=True)
+        cmd.append("-Djava.io.tmpdir=%s" % jt)
         cmd += ["-Xss64m", "-cp", "/opt/veriftools/tla/tla2tools.jar:/opt/veriftools/tla/CommunityModules-deps.jar",
                 "tlc2.TLC", "-metadir", os.path.join(dst, "meta"), "-config", cfg,
                 "-workers", str(workers or ("auto" if not simulate else 1))]
